@@ -15,7 +15,7 @@ static void build_sizes (int ch)
 {	static const size_t structs [] = { sizeof (int), sizeof (double), sizeof (sf_count_t), sizeof (SF_INFO), sizeof (SF_FORMAT_INFO), sizeof (SF_DITHER_INFO), sizeof (SF_EMBED_FILE_INFO), sizeof (SF_LOOP_INFO),
 		sizeof (SF_INSTRUMENT), sizeof (SF_CUES), offsetof (SF_CUES, cue_points), offsetof (SF_CUES, cue_points) + 2 * sizeof (SF_CUE_POINT), sizeof (SF_BROADCAST_INFO), offsetof (SF_BROADCAST_INFO, coding_history), sizeof (SF_CART_INFO), offsetof (SF_CART_INFO, tag_text), offsetof (SF_CART_INFO, tag_text_size), offsetof (SF_BROADCAST_INFO, coding_history_size), 2048, 16384 + 602, 16384 + 2048 } ;
 	int i, d ; nsizes = 0 ;
-	for (i = 0 ; i <= 40 ; i++) add_size (i) ;
+	for (i = 0 ; i <= 72 ; i++) add_size (i) ;		/* 0x40 and 0x41 are the SF_AMBISONIC_* constants: a getter that mistakes datasize for a value would take them */
 	for (i = 0 ; i < (int) (sizeof (structs) / sizeof (structs [0])) ; i++) for (d = -8 ; d <= 8 ; d++) add_size ((int) structs [i] + d) ;
 	for (d = -2 ; d <= 2 ; d++) { add_size (ch * (int) sizeof (int) + d) ; add_size (ch * (int) sizeof (double) + d) ; }
 	add_size (100000) ;
@@ -44,6 +44,7 @@ static uint64_t digest (HND *h)
 	d = vh_fnv (0, &st.read_current, 8) ; d = vh_fnv (d, &st.write_current, 8) ; d = vh_fnv (d, &st.frames, 8) ; d = vh_fnv (d, &st.channels, 20) ;
 	d = vh_fnv (d, &st.norm_float, 20) ; d = vh_fnv (d, &st.auto_header, 4) ; d = vh_fnv (d, &st.meta_digest, 8) ; d = vh_fnv (d, &st.have_written, 4) ; d = vh_fnv (d, &st.dataoffset, 16) ;
 	d = vh_fnv (d, &h->m.len, 8) ; d = vh_fnv (d, h->m.d, (size_t) h->m.len) ;
+	{	int amb = sf_command (h->s, SFC_WAVEX_GET_AMBISONIC, NULL, 0), clip = sf_command (h->s, SFC_GET_CLIPPING, NULL, 0) ; d = vh_fnv (d, &amb, 4) ; d = vh_fnv (d, &clip, 4) ; }	/* settings the hook does not carry */
 	return d ;
 }
 static int hnd_open (HND *h, int format, int ch, int state, const MEMF *base)
